@@ -190,6 +190,7 @@ func (mr *memReader) Close() error {
 	if mr.closed {
 		return ErrClosed
 	}
+	mr.closed = true
 	mr.m.open = false
 	return nil
 }
@@ -208,6 +209,7 @@ func (mw *memWriter) Close() error {
 	if mw.closed {
 		return ErrClosed
 	}
+	mw.closed = true
 	mw.memFile.open = false
 	return nil
 }
